@@ -764,12 +764,27 @@ pub fn run_inloop(case: &InCase) -> CaseOutcome {
             })
             .expect("insert timer");
     }
+    // last resort: a loop that does not leave although it was asked to (and then sleeps for ever because the script is
+    // over) is made to leave after 1.5 s - the closure stops queueing idles, stop() and wakeup() are repeated. The
+    // verdict then comes from the counts below (iterations run, idles run), never from this timer.
+    let give_up = Arc::new(AtomicBool::new(false));
+    {
+        let (g, sig) = (give_up.clone(), signal.clone());
+        handle
+            .insert_source(calloop::timer::Timer::from_duration(Duration::from_millis(1500)), move |_, _, _| {
+                g.store(true, Ordering::SeqCst);
+                sig.stop();
+                sig.wakeup();
+                calloop::timer::TimeoutAction::ToDuration(Duration::from_millis(200))
+            })
+            .expect("insert rescue timer");
+    }
     let cr = closure_runs.clone();
     let closure_idle = case.closure_idle;
-    let (weak_c, idles_c) = (handle.downgrade(), idles_ran.clone());
+    let (weak_c, idles_c, give_up_c) = (handle.downgrade(), idles_ran.clone(), give_up.clone());
     let mut closure = move || {
         cr.fetch_add(1, Ordering::SeqCst);
-        if closure_idle {
+        if closure_idle && !give_up_c.load(Ordering::SeqCst) {
             if let Some(h) = weak_c.upgrade() {
                 let n = idles_c.clone();
                 let _ = h.insert_idle(move |_| {
@@ -807,6 +822,15 @@ pub fn run_inloop(case: &InCase) -> CaseOutcome {
             Err(e) => return Some(Violation::new("C11.inloop", format!("loop returned an error: {e}"))),
         };
         let rounds_got = cb_rounds.load(Ordering::SeqCst) as usize;
+        if give_up.load(Ordering::SeqCst) {
+            return Some(
+                Violation::new(
+                    "C11.stop",
+                    format!("the call did not return after the iteration in which stop() was requested (it ran {rounds_got} iterations' worth of callbacks, {rounds_run} expected, and had to be ended by the harness after 1.5 s)"),
+                )
+                .with_sig("C11.stop/inloop-did-not-leave"),
+            );
+        }
         if case.block_on {
             if got != want {
                 let why = match (got, want) {
